@@ -134,6 +134,8 @@ def sources(draw, geff=False):
             "mpick": draw(st.integers(0, 100)),
             # valid track / lineage ids already in the source (arbitrary distinct values), mapped
             "idcols": draw(st.sampled_from([None, None, None, "both", "track", "lineage"])) if not geff else None,
+            # dtype of an integer id column (labels of a uint16 / uint64 image, pandas nullable ints)
+            "id_dtype": draw(st.sampled_from([None, None, None, "uint16", "uint64", "int32", "Int64", "UInt32"])),
             "id_base": draw(st.sampled_from([0, 1, 5, 300])), "id_perm": draw(st.integers(0, 10**6))}
 
 
@@ -188,6 +190,10 @@ def _frame(inp):
     if inp["shuffle"] % 2:
         rows.reverse()
     df = pd.DataFrame(rows)
+    if inp.get("id_dtype") and inp["idkind"] in ("contig", "noncontig", "zero"):
+        ids_ = [m["id"] for m in inp["nodes"]]
+        if max(ids_) <= 65535 or inp["id_dtype"] != "uint16":
+            df[cols["id"]] = df[cols["id"]].astype(inp["id_dtype"])
     # a source frame is often the result of sorting / filtering: its index need not be 0..n-1
     imode = inp.get("index_mode", 0)
     if imode == 1:
